@@ -35,7 +35,7 @@ RULE = (
     "and sum to 1 (1e-12). Non-trivial = sat column with >= 2 present phases and distinct densities / chain with a "
     "non-zero B / norm with >= 2 columns; distinct = hash of spec."
 )
-BUDGET = {"quick": {"cases": 4000, "seconds": 40}, "thorough": {"cases": 250000, "seconds": 1100}}
+BUDGET = {"quick": {"cases": 3000, "seconds": 40}, "thorough": {"cases": 250000, "seconds": 1100}}
 TECHNIQUE = "property-based testing (Hypothesis): algebraic identities of the saturation solve, complex-step derivative of the composed function"
 LEVEL_TEXT = ("Exploration: thousands of generated phase-fraction vectors (2-5 phases; generic, vanished, saturated and "
               "threshold classes), densities over more than three decades, quadratic test functions of normalised "
@@ -179,14 +179,22 @@ KNOWN = {FINDING_SINGULAR: _known_singular}
 
 
 def warmup():
+    """Trigger the JIT compilation of every kernel; a kernel that raises here is left for the checks to report."""
     from porepy.compositional.utils import chainrule_fractional_derivatives, compute_saturations, normalize_rows
 
-    compute_saturations(np.array([[0.2, 0.3], [0.3, 0.3], [0.5, 0.4]]), np.ones((3, 2)))
-    compute_saturations(np.array([0.2, 0.8]), np.ones(2))
-    chainrule_fractional_derivatives(np.ones((3, 2)), np.ones((2, 2)))
-    chainrule_fractional_derivatives(np.ones(3), np.ones(2))
-    normalize_rows(np.ones((2, 2)))
-    normalize_rows(np.ones((2, 3)).T)
+    calls = [
+        lambda: compute_saturations(np.array([[0.2, 0.3], [0.3, 0.3], [0.5, 0.4]]), np.ones((3, 2))),
+        lambda: compute_saturations(np.array([0.2, 0.8]), np.ones(2)),
+        lambda: chainrule_fractional_derivatives(np.ones((3, 2)), np.ones((2, 2))),
+        lambda: chainrule_fractional_derivatives(np.ones(3), np.ones(2)),
+        lambda: normalize_rows(np.ones((2, 2))),
+        lambda: normalize_rows(np.ones((2, 3)).T),
+    ]
+    for f in calls:
+        try:
+            f()
+        except Exception:  # noqa: BLE001 - compilation is all that matters here
+            pass
 
 
 # ----------------------------------------------------------------------------- check
